@@ -102,12 +102,98 @@ func (c *copier) copy(v reflect.Value) reflect.Value {
 }
 
 // deepCopy returns a value that shares no mutable memory with v and is detached from the
-// variable v may be a view of.
-func deepCopy(v reflect.Value) reflect.Value {
-	c := &copier{ptrs: map[ptrKey]reflect.Value{}}
+// variable v may be a view of. One copier serves a whole snapshot or restore, so that two
+// package variables pointing at the same object still do afterwards; a pointer to a package
+// variable itself stays what it is (the variable is restored in place).
+func deepCopy(c *copier, v reflect.Value) reflect.Value {
 	n := reflect.New(v.Type()).Elem()
 	n.Set(c.copy(v))
 	return n
+}
+
+func newCopier() *copier {
+	c := &copier{ptrs: map[ptrKey]reflect.Value{}}
+	for _, g := range Globals {
+		pv := reflect.ValueOf(g.Ptr)
+		if pv.Kind() == reflect.Ptr && !pv.IsNil() {
+			c.ptrs[ptrKey{pv.UnsafePointer(), pv.Type()}] = pv
+		}
+	}
+	return c
+}
+
+// aliasScan looks for pointers into the interior of an object that is also reached by
+// value (container/list's sentinel `root.next = &l.root`, a pointer to a struct field, to an
+// array element): copying pointee by pointee would tear such structures apart.
+type aliasScan struct {
+	seen   map[ptrKey]bool
+	ranges [][2]uintptr // [start, end) of every allocated object reached
+	ptrs   []uintptr
+}
+
+func (a *aliasScan) walk(v reflect.Value, depth int) {
+	if depth > 64 || !v.IsValid() {
+		return
+	}
+	switch v.Kind() {
+	case reflect.Ptr:
+		if v.IsNil() || skipType(v.Type().Elem()) {
+			return
+		}
+		k := ptrKey{v.UnsafePointer(), v.Type()}
+		a.ptrs = append(a.ptrs, v.Pointer())
+		if a.seen[k] {
+			return
+		}
+		a.seen[k] = true
+		if sz := v.Type().Elem().Size(); sz > 0 {
+			a.ranges = append(a.ranges, [2]uintptr{v.Pointer(), v.Pointer() + sz})
+		}
+		a.walk(v.Elem(), depth+1)
+	case reflect.Interface:
+		if !v.IsNil() {
+			a.walk(v.Elem(), depth+1)
+		}
+	case reflect.Slice:
+		if v.IsNil() || v.Len() == 0 {
+			return
+		}
+		if sz := v.Type().Elem().Size(); sz > 0 {
+			a.ranges = append(a.ranges, [2]uintptr{v.Pointer(), v.Pointer() + sz*uintptr(v.Cap())})
+		}
+		for i := 0; i < v.Len() && i < 4096; i++ {
+			a.walk(v.Index(i), depth+1)
+		}
+	case reflect.Array:
+		for i := 0; i < v.Len() && i < 4096; i++ {
+			a.walk(v.Index(i), depth+1)
+		}
+	case reflect.Map:
+		it := v.MapRange()
+		for it.Next() {
+			a.walk(it.Key(), depth+1)
+			a.walk(it.Value(), depth+1)
+		}
+	case reflect.Struct:
+		if skipType(v.Type()) {
+			return
+		}
+		for i := 0; i < v.NumField(); i++ {
+			a.walk(accessible(v.Field(i)), depth+1)
+		}
+	}
+}
+
+// interior reports a pointer that points strictly inside an object (not at its start).
+func (a *aliasScan) interior() bool {
+	for _, p := range a.ptrs {
+		for _, r := range a.ranges {
+			if p > r[0] && p < r[1] {
+				return true
+			}
+		}
+	}
+	return false
 }
 
 func noteShimFunc(f any) { shimFuncPtrs[reflect.ValueOf(f).Pointer()] = true }
@@ -152,7 +238,31 @@ func SnapshotGlobals() {
 			RestoreDisabled = g.Name + " holds a function value whose closure may carry state"
 		}
 	}
+	// interior pointers (also a pointer to the first field of an object that is reached by value
+	// under another type: same address, caught by the type in the key)
+	func() {
+		defer func() { recover() }()
+		sc := &aliasScan{seen: map[ptrKey]bool{}}
+		for _, g := range Globals {
+			pv := reflect.ValueOf(g.Ptr)
+			if pv.Kind() == reflect.Ptr && !pv.IsNil() {
+				sc.ranges = append(sc.ranges, [2]uintptr{pv.Pointer(), pv.Pointer() + pv.Type().Elem().Size()})
+				sc.walk(pv.Elem(), 0)
+			}
+		}
+		byAddr := map[uintptr]reflect.Type{}
+		for k := range sc.seen {
+			if t, ok := byAddr[uintptr(k.p)]; ok && t != k.t {
+				RestoreDisabled = "package state contains two pointers of different types to one address (an object and its first field)"
+			}
+			byAddr[uintptr(k.p)] = k.t
+		}
+		if RestoreDisabled == "" && sc.interior() {
+			RestoreDisabled = "package state contains a pointer into the interior of another object"
+		}
+	}()
 	snapshot = make([]reflect.Value, len(Globals))
+	c := newCopier()
 	for i, g := range Globals {
 		pv := reflect.ValueOf(g.Ptr)
 		if pv.Kind() != reflect.Ptr || pv.IsNil() {
@@ -160,7 +270,7 @@ func SnapshotGlobals() {
 		}
 		func() {
 			defer func() { recover() }()
-			snapshot[i] = deepCopy(pv.Elem())
+			snapshot[i] = deepCopy(c, pv.Elem())
 		}()
 	}
 }
@@ -175,13 +285,14 @@ func RestoreGlobals() {
 	for _, o := range shimOnces[:nOnceAtSnapshot] {
 		*o = sync.Once{}
 	}
+	c := newCopier()
 	for i, g := range Globals {
 		if !snapshot[i].IsValid() {
 			continue
 		}
 		func() {
 			defer func() { recover() }()
-			reflect.ValueOf(g.Ptr).Elem().Set(deepCopy(snapshot[i]))
+			reflect.ValueOf(g.Ptr).Elem().Set(deepCopy(c, snapshot[i]))
 		}()
 	}
 }
